@@ -6,7 +6,7 @@ from pathlib import Path
 V = Path(__file__).resolve().parent.parent
 TB_PROOF = ("trusted: Coq 8.16.1 kernel (no axioms: Print Assumptions = closed under the global context, recorded in evidence); the "
             "Python->Gallina translator translator/py2coq.py, validated on every run by the S-gen correspondence stream evaluated inside Coq; "
-            "Base/Pep440.v as the model of packaging's Version order (stream S-ver); the harness")
+            "Base/Pep440.v as the model of packaging's Version order (stream S-ver, run by the check of C01); the harness")
 TB_ORACLE = ("no theorem yet for this property: the check is a seeded, grammar-based search for a failing input on the real code with an independent "
              "reference (packaging where the property names it); assumes the reference and the generator's coverage")
 
@@ -52,10 +52,10 @@ P = {
          "tag sets with packaging.utils.parse_wheel_filename.",
          "trusted: Coq kernel (closed under the global context); hand models Model/Tags.v (parse_wheel_tags) and Model/PlatParse.v (regex, Arch.parse, __str__) tied by correspondence; CPython re/str modelled for ASCII",
          "machine-checked proof in Coq over hand models + correspondence", "5"),
- "C19": ("proof", "C19_and/or/inv/dispatch for ALL strings over Model/Generic.v (hand model of generic.py, tied by the exhaustive S-generic stream over 8 operators x a "
-         "literal pool closed under the relations the case table inspects); Empty/Any membership is the regenerated special.py.",
-         "trusted: Coq kernel (closed under the global context); the hand model is tied to generic.py only by the exhaustive correspondence stream; translator for special.py",
-         "machine-checked proof in Coq over a hand model + exhaustive correspondence", "5"),
+ "C19": ("proof", "C19_and/or/inv/dispatch for ALL strings over Model/Generic.v (hand model of generic.py, tied by the S-generic stream: exhaustive for == != in not in over a "
+         "literal pool closed under the relations the case table inspects; pairs with an ordering operator are a 1/7 slice in the quick tier, all in the thorough tier); Empty/Any membership is the regenerated special.py.",
+         "trusted: Coq kernel (closed under the global context); the hand model is tied to generic.py only by the correspondence stream (exhaustive over the literal pool for the four string operators); translator for special.py",
+         "machine-checked proof in Coq over a hand model + correspondence exhaustive over the literal pool", "5"),
 }
 ORACLE_ONLY = {
  "C02": "soundness of marker & and | : truth tables of results vs operands on separating environment grids",
